@@ -93,8 +93,22 @@ impl TryFrom<tir::InputQuery> for CanonicalQuery {
             .min_amount
             .as_option()
             .map(|x| data_or_bail!(x, assets))
-            .transpose()?
-            .map(|x| CanonicalAssets::from(Vec::from(x)));
+            .transpose()?;
+
+        // an amount that is still an expression (it waits for another input, or is ill-typed) is
+        // no data either: bail instead of reaching the conversion's `unreachable!`
+        if let Some(asset) = min_amount
+            .into_iter()
+            .flatten()
+            .find(|asset| asset.amount.as_number().is_none())
+        {
+            return Err(Error::ExpectedData(
+                "number".to_string(),
+                asset.amount.clone(),
+            ));
+        }
+
+        let min_amount = min_amount.map(|x| CanonicalAssets::from(Vec::from(x)));
 
         let refs = query
             .r#ref
